@@ -503,7 +503,9 @@ theorem sizeOf_pos {T : Nat} (h : 1 ≤ T) : 1 ≤ sizeOf T := by
   rw [sizeOf_eq_compactSharesNeeded]
   unfold compactSharesNeeded
   rw [if_neg (by omega)]
-  split <;> omega
+  split
+  · exact Nat.le_refl 1
+  · exact Nat.le_add_right 1 _
 
 theorem closedEstimate_pos (thr : Nat) (N : List Bytes) (B : List BlobTx) (hne : ¬ (N = [] ∧ B = [])) :
     1 ≤ closedEstimate thr N B := by
